@@ -219,12 +219,12 @@ def observe(ctx, traces, props, module='TraceObs'):
             raise Infra('trace observer consumed %d of %d events of %s' % (r.distinct - 1, n, tp))
         v = []
         for p in r.prints:
-            m = re.match(r'<<"L1", "([^"]+)", "([^"]*)", (\d+)>>', p)
+            m = re.match(r'<<"(L1|L2)", "([^"]+)", "((?:[^"\\]|\\.)*)", (\d+)>>$', p)
             if m:
-                v.append((m.group(1), m.group(2)))
-            m = re.match(r'<<"L2", "drift", "([^"]*)", (\d+)>>', p)
-            if m:
-                v.append(('L2', m.group(1)))
+                sid = m.group(3).replace('\\"', '"').replace('\\\\', '\\')
+                v.append(('L2', sid) if m.group(1) == 'L2' else (m.group(2), sid))
+            elif p.startswith('<<"L1"') or p.startswith('<<"L2"'):
+                raise Infra('unparseable observer line: ' + p[:200])
         return v, r.distinct
     out = []
     with ThreadPoolExecutor(max_workers=min(len(traces), NCPU)) as ex:
